@@ -3,10 +3,10 @@
    Procs/Switchover.v (start/fail/finish_switchover), tied to the code by the K2 replay of the
    real stateManager (Corr/Mgr.v).  The multi-iteration clauses (one manager at a time, no request
    filed over a pending one, outcome recorded once over the whole history) are decided on the
-   implementation side by the monitor over histories of iterations; the timeout clause is REFUTED. *)
+   implementation side by the monitor over histories of iterations. *)
 From Coq Require Import ZArith NArith Bool List.
 From Mysync Require Import Gtid.Interval Gtid.GtidSet Pure.Quorum Base.Prog Base.ProgFacts Base.Config
-  Procs.NodeOps Procs.ActiveNodes Procs.Switchover Procs.Manager Proofs.ManagerProofs.
+  Procs.NodeOps Procs.ActiveNodes Procs.Switchover Procs.Manager Proofs.MasterLast Proofs.ManagerProofs Proofs.OutcomeProofs.
 Import ListNotations.
 Open Scope Z_scope.
 
@@ -57,13 +57,36 @@ Theorem C06_not_rejudged : forall cfg sw active cs,
 Proof. exact approve_switchover_not_rejudged. Qed.
 Print Assumptions C06_not_rejudged.
 
-(* "never stays pending past the switchover timeout" is FALSE of the code (known finding C06-F1): a
-   timed-out request is written back as pending with one more attempt counted - its only coordination
-   write - and the next iteration finds it timed out again *)
-Theorem C06_timeout_terminates_refuted : forall cfg env m cs active master sw tr o,
+(* "never stays pending past the switchover timeout" (after the repair ff31fd9): an iteration that finds the
+   request older than the timeout does nothing but finish it as rejected - it removes the request and, when the
+   removal succeeded, records it under last_rejected_switch *)
+Theorem C06_timeout_terminates : forall cfg env m cs active master sw tr o,
   sw_initiated_at sw <> 0 ->
   runs (handle_switchover cfg env m cs active master sw) tr o ->
   forall e0 tr', tr = e0 :: tr' -> c_switchover_timeout cfg < now_val e0 - sw_initiated_at sw ->
-  exists d, switch_writes tr = [d] /\ exists t, ev_call d = DcsSet PSwitch (VSwitch (with_result sw false t (sw_run_count sw + 1))).
-Proof. exact timed_out_request_stays_pending. Qed.
-Print Assumptions C06_timeout_terminates_refuted.
+  exists t rc,
+    let rec := with_result sw false t rc in
+    match switch_writes tr with
+    | [d] => ev_call d = DcsDelete PSwitch /\ ev_resp d <> ROk
+    | [d; s] => ev_call d = DcsDelete PSwitch /\ ev_resp d = ROk /\ ev_call s = DcsSet PLastRejected (VSwitch rec)
+    | _ => False
+    end.
+Proof. exact timed_out_request_is_rejected. Qed.
+Print Assumptions C06_timeout_terminates.
+
+(* "a request reported as succeeded implies the recorded master is the promoted node and is writable":
+   performSwitchover reports success only when its last call - the write of the master key with the
+   host whose SET read_only=0 was answered OK - was answered OK too ... *)
+Theorem C06_success_means_promoted_and_recorded : forall cfg env sw mem tr mem',
+  runs (perform_switchover cfg env sw mem) tr (Done (SwOk, mem')) ->
+  exists t1 e h w, tr = t1 ++ [e] /\ ev_call e = DcsSet PMaster (VHost h) /\ ev_resp e = ROk /\
+                   In w t1 /\ ev_call w = Sql h SSetWritable /\ ev_resp w = ROk.
+Proof. exact success_means_master_recorded. Qed.
+Print Assumptions C06_success_means_promoted_and_recorded.
+
+(* ... and the iteration that handles a request writes the success record (last_switch) only then *)
+Theorem C06_success_record_only_after_promotion : forall cfg env m cs active master sw tr o,
+  runs (handle_switchover cfg env m cs active master sw) tr o ->
+  no_success_record tr \/ promoted_and_recorded tr.
+Proof. exact success_record_means_promoted. Qed.
+Print Assumptions C06_success_record_only_after_promotion.
